@@ -35,7 +35,10 @@ namespace cds_verif { namespace atomics {
             std::atomic<T>& v() const volatile noexcept { return const_cast<std::atomic<T>&>( v_ ); }
 
         public:
-            atomic_common() noexcept = default;
+            // A default-constructed atomic is zero: libcds constructors often go on with a store() of the initial value, and
+            // the "did this step change a value" flag the scheduler derives from store() must not depend on what the
+            // heap block contained before (it decides the cost of yields, i.e. the shape of the schedule tree).
+            atomic_common() noexcept : v_{} {}
             constexpr atomic_common( T val ) noexcept : v_( val ) {}
             atomic_common( atomic_common const& ) = delete;
             atomic_common& operator=( atomic_common const& ) = delete;
